@@ -60,6 +60,12 @@ def all_jobs():
         j['replace'] = j['replace'] + [V_CTOR_IMAG] + ([V_CLONE] if n == 'op_add' else [])
         j['cut'] = j['cut'] + [V_CTOR_IMAG] + ([V_CLONE] if n == 'op_add' else [])
         J.append(j)
+        if n == 'op_exp':
+            for b in (0, 2):
+                jb = dict(j); jb.pop('uf_all', None); jb.pop('uf', None)
+                jb.update(id='op_exp_base%d' % b, defines=list(j.get('defines', [])) + ['OPEXP_BASE=%d' % b], props=['C03'], pretty='bloc::OpEXPExpression::value (first operand %d)' % b, weight=20)
+                jb.pop('replay', None)
+                J.append(jb)
     for n, c in (('op_eq', 'OpEQExpression'), ('op_ne', 'OpNEExpression'), ('op_lt', 'OpLTExpression'), ('op_le', 'OpLEExpression'),
                  ('op_gt', 'OpGTExpression'), ('op_ge', 'OpGEExpression')):
         J.append(op(n, c, ['C01', 'C02', 'C04', 'C05'], weight=5))
@@ -154,7 +160,7 @@ def all_jobs():
     mg = '_ZNK4bloc15FORALLStatement4doitERNS_7ContextE'
     FA_STUBS = [s for s in CTX_STUBS if 'getSymbol' not in s and 'storeVariable' not in s]
     J.append(dict(id='stmt_forall_doit', src='blocc/statement_forall.cpp', contract='stmt_forall_doit.c', enforce=mg, roots=[mg], replace=[VCALL_VALUE, V_MOVE_ASSIGN, V_MOVE_CTOR, V_CLEAR] + FA_STUBS,
-                  cut=[VCALL_VALUE, RTE_CTOR, RTE_CTOR_S, V_MOVE_ASSIGN, V_MOVE_CTOR, V_CLEAR, '_ZN4bloc7Context9getSymbolEj'] + FA_STUBS, props=['C01', 'C06'], pretty='bloc::FORALLStatement::doit', canaries=['normal', 'exceptional'],
+                  cut=[VCALL_VALUE, RTE_CTOR, RTE_CTOR_S, V_MOVE_ASSIGN, V_MOVE_CTOR, V_CLEAR, '_ZN4bloc7Context9getSymbolEj'] + FA_STUBS, props=['C01', 'C06', 'C08'], pretty='bloc::FORALLStatement::doit', canaries=['normal', 'exceptional'],
                   unwind=2, unwind_why='no loop of its own; Value accessors only',
                   structs=DEFAULT_STRUCTS + [STD_STRING, 'bloc::Symbol', 'bloc::Context', 'bloc::Executable', 'bloc::FORALLStatement', 'bloc::FORALLStatement::RT', 'bloc::Context::MemorySlot', 'bloc::VariableExpression', 'bloc::Expression', 'bloc::Collection']))
     mg = '_ZNK4bloc14WHILEStatement4doitERNS_7ContextE'
@@ -259,7 +265,7 @@ def all_jobs():
     for fn, mg in (('rollback', '_ZN4bloc14FunctorManager8rollbackEv'),
                    ('createOrReplace', '_ZN4bloc14FunctorManager15createOrReplaceERKNSt7__cxx1112basic_stringIcSt11char_traitsIcESaIcEEERKSt6vectorINS_6SymbolESaISA_EE')):
         J.append(dict(id='fm_' + fn, src='blocc/functor_manager.cpp', contract='fm_rollback.c', enforce=mg, roots=[mg], replace=[], cut=[],
-                      props=['C01', 'C11'], pretty='bloc::FunctorManager::' + fn, canaries=['normal'], unwind=6, bounded_inputs=True, defines=['JOB_' + fn.upper()],
+                      props=['C01', 'C11', 'C15'], pretty='bloc::FunctorManager::' + fn, canaries=['normal'], unwind=6, bounded_inputs=True, defines=['JOB_' + fn.upper()],
                       unwind_why='declaration list of at most 3 functions',
                       structs=DEFAULT_STRUCTS + [STD_STRING, 'bloc::FunctorManager', 'bloc::FunctorManager::Entry', 'bloc::Functor', 'bloc::Context', 'bloc::Symbol']))
     mg = '_ZNK4bloc22MemberMETHODExpression5valueERNS_7ContextE'
@@ -286,12 +292,21 @@ def all_jobs():
                                   ('stmt_while_parse_clause', '_ZN4bloc14WHILEStatement12parse_clauseERNS_6ParserERNS_7ContextEPNS_9StatementE', 'JOB_WHILE', 'blocc/statement_while.cpp', 'WHILEStatement')):
         J.append(dict(id=jid, src=src, contract='stmt_forall_parse.c', enforce=mg, roots=[mg], replace=[], defines=[df],
                       cut=['_ZN4bloc7Context9getSymbolEj', '_ZN4bloc7Context9execBeginEPKNS_9StatementE', '_ZN4bloc7Context7execEndEv'] + EXEC_CTORS,
-                      props=['C01', 'C11'] + (['C09'] if df == 'JOB_FORALL' else []), pretty='bloc::%s::parse_clause' % cls, canaries=['normal', 'exceptional'], unwind=12, bounded_inputs=True,
+                      props=['C01', 'C11'] + (['C09', 'C17'] if df == 'JOB_FORALL' else []), pretty='bloc::%s::parse_clause' % cls, canaries=['normal', 'exceptional'], unwind=12, bounded_inputs=True,
                       unwind_why='body of at most 2 statements (stub of Parser::pop yields at most 5 tokens)',
                       structs=DEFAULT_STRUCTS + [STD_STRING, 'bloc::' + cls, 'bloc::Context', 'bloc::Symbol', 'bloc::VariableExpression', 'bloc::Expression', 'bloc::Statement', 'bloc::Executable', 'bloc::Parser', 'bloc::ParseError', 'bloc::Token']))
     J.append(dict(id='tokenizer_buf', src='blocc/lex._tokenizer.c', contract='tokenizer_buf.c', enforce='tokenizer_buf', roots=['tokenizer_buf'], replace=[], cut=[], c_source=True,
                   props=['C01', 'C13'], pretty='tokenizer_buf (tokenizer.lex)', canaries=['normal'], unwind=8, bounded_inputs=True,
                   unwind_why='chunks of at most 3 bytes from the reader stub (flex copies them byte by byte)', enums=[], structs=[]))
+    # ---- C01: the binary-operator levels of the expression parser (ownership of operands on the error paths) ----
+    PE = '_ZN4bloc15ParseExpression%sEv'
+    # (relation and logic compare token spellings and build MATCH nodes: their rendering reaches the exception-model limit of the harness; not under contract)
+    for lvl, sub in (('4term', '7primary'), ('3sum', '4term'), ('8bitshift', '3sum'), ('8bitlogic', '8bitshift')):
+        mg = PE % lvl
+        J.append(dict(id='parse_' + lvl[1:], src='blocc/parse_expression.cpp', contract='parse_binop.c', enforce=mg, roots=[mg], replace=[], cut=[PE % sub, RTE_CTOR, RTE_CTOR_S, '_ZNK4bloc4Type8typeNameB5cxx11Ev'],
+                      defines=['PARSE_FN=' + mg, 'SUB_FN=' + (PE % sub)], props=['C01'], pretty='bloc::ParseExpression::%s()' % lvl[1:], canaries=['normal', 'exceptional'], unwind=8, bounded_inputs=True,
+                      unwind_why='at most 5 tokens from the stub of Parser::pop (two operators in a row), operands from the level below',
+                      structs=DEFAULT_STRUCTS + [STD_STRING, 'bloc::Context', 'bloc::ParseExpression', 'bloc::Parser', 'bloc::ParseError', 'bloc::Token']))
     # ---- C13: stream readers ----
     mg = '_ZN4bloc12StringReader4readEPNS_6ParserEPci'
     J.append(dict(id='reader_string', src='blocc/string_reader.cpp', contract='reader_string.c', enforce=mg, roots=[mg], replace=[], cut=[],
@@ -384,6 +399,12 @@ def all_jobs():
     J.append(dict(id='var_store', src='blocc/statement_let.cpp', contract='var_store.c', enforce=mg, roots=[mg], replace=[VCALL_VALUE], cut=[VCALL_VALUE, '_ZN4bloc7Context13storeVariableEjONS_5ValueE', RTE_CTOR, RTE_CTOR_S],
                   props=['C01', 'C05', 'C07', 'C08'], pretty='bloc::VariableExpression::store(d_ctx, s_ctx, exp)', canaries=['normal', 'exceptional'],
                   structs=DEFAULT_STRUCTS + [STD_STRING, 'bloc::Context', 'bloc::VariableExpression']))
+    J.append(dict(id='ctx_trusted', src='blocc/context.cpp', contract='ctx_child.c', enforce='_ZN4bloc7Context7trustedEb', roots=['_ZN4bloc7Context7trustedEb'], replace=[], cut=[], defines=['JOB_TRUSTED'],
+                  props=['C01', 'C16'], pretty='bloc::Context::trusted(bool)', canaries=['normal'], structs=DEFAULT_STRUCTS + [STD_STRING, 'bloc::Context']))
+    for b, tag in ((0, '0'), (1, '1'), (-1, 'm1'), (2, '2')):
+        J.append(dict(id='op_exp_ipow_base_' + tag, src='blocc/operator/op_exp.cpp', contract='ipow.c', enforce='_ZN4blocL4ipowEll', roots=['_ZN4blocL4ipowEll'], replace=[], cut=[], defines=['IPOW_BASE=%d' % b],
+                      props=['C01', 'C03'], pretty='ipow(%d, exp) (op_exp.cpp)' % b, canaries=['normal'], unwind=66, unwind_why='64 exponent bits (complete)',
+                      structs=DEFAULT_STRUCTS))
     mg = '_ZN4bloc7Context5purgeEv'
     PURGE_CUT = [V_CLEAR, '_ZN4bloc14FunctorManagerC1ERNS_7ContextE', '_ZN4bloc14FunctorManagerD1Ev', '_ZN4bloc14FunctorManagerC2ERNS_7ContextE', '_ZN4bloc14FunctorManagerD2Ev', '_ZN4bloc7Context4Pool5purgeEv']
     J.append(dict(id='ctx_purge', src='blocc/context.cpp', contract='ctx_purge.c', enforce=mg, roots=[mg], replace=[], cut=PURGE_CUT,
@@ -427,9 +448,9 @@ def all_jobs():
         follows = name in BUILTIN_FOLLOWS_COMPLEX
         tyform = 'BUILTIN_TYPE_SAME_AS_ARG1' if name in BUILTIN_SAME_AS_ARG1 else ('BUILTIN_TYPE_ARITH2' if name in BUILTIN_ARITH2 else ('BUILTIN_TYPE_POW' if name == 'pow' else None))
         J.append(dict(id='bi_' + name, src='blocc/builtin/builtin_%s.cpp' % name, contract='builtin_generic.c', enforce=mg, roots=[mg], replace=list(MEMB_REPLACE) + [V_CTOR_IMAG], cut=list(MEMB_CUT) + [V_CTOR_IMAG],
-                      props=['C01', 'C05'] + (['C02'] if (ftype or follows or tyform) else []) + (['C03', 'C04', 'C10'] if name in ('int', 'num') else []), pretty='bloc::%s::value' % cls, canaries=['normal', 'exceptional'], unwind=uw,
+                      props=['C01', 'C05'] + (['C02'] if (ftype or follows or tyform) else []) + (['C03', 'C04', 'C10'] if name in ('int', 'num') else []) + (['C10'] if name == 'isnum' else []), pretty='bloc::%s::value' % cls, canaries=['normal', 'exceptional'], unwind=uw,
                       unwind_why=uw_why,
-                      defines=['BUILTIN_FN=' + mg, 'BUILTIN_CLASS=' + cls, 'BUILTIN_NARGS=%d' % nargs] + (['BUILTIN_STR_MAX=%d' % strmax] if strmax else []) + (['BUILTIN_TYPE=' + ftype] if ftype else []) + (['BUILTIN_TYPE_FOLLOWS_COMPLEX'] if follows else []) + ([tyform] if tyform else []) + (['BUILTIN_ABS'] if name == 'abs' else []) + (['BUILTIN_IS_INT'] if name == 'int' else []) + (['BUILTIN_IS_NUM'] if name == 'num' else []),
+                      defines=['BUILTIN_FN=' + mg, 'BUILTIN_CLASS=' + cls, 'BUILTIN_NARGS=%d' % nargs] + (['BUILTIN_STR_MAX=%d' % strmax] if strmax else []) + (['BUILTIN_TYPE=' + ftype] if ftype else []) + (['BUILTIN_TYPE_FOLLOWS_COMPLEX'] if follows else []) + ([tyform] if tyform else []) + (['BUILTIN_ABS'] if name == 'abs' else []) + (['BUILTIN_IS_INT'] if name == 'int' else []) + (['BUILTIN_IS_NUM'] if name == 'num' else []) + (['BUILTIN_IS_ISNUM'] if name == 'isnum' else []),
                       replay=dict(kind='evalnode', headers=['blocc/builtin/builtin_%s.h' % name], mirror_class=cls, children=nargs,
                                   construct='new bloc::%s(std::vector<bloc::Expression*>{%s})' % (cls, ', '.join('kids[%d]' % i for i in range(nargs))),
                                   script='%s(%s)' % (name, ', '.join('{%d}' % i for i in range(nargs)))),
